@@ -97,7 +97,7 @@ def draw_c(rng, cplx, i):
 def cases(c):
     rng = c.rng('cases')
     out = []
-    nf = 9 if c.tier == 'quick' else 320
+    nf = 70 if c.tier == 'quick' else 600
     i = 0
     for fn in FUNCS:
         for j in range(nf):
@@ -136,7 +136,15 @@ def cases(c):
                           'NFFT': gen.pick(rng, [None, N, 2 * N + 1]), 'method': gen.pick(rng, ['adapt', 'eigen', 'unity'])}
             out.append(d)
             i += 1
-    ncl = 8 if c.tier == 'quick' else 300
+    # high-SNR / large-dynamic-range data through the model-based estimators: values are too
+    # ill-conditioned to compare, but an estimator that accepts x must also accept c*x
+    extra = []
+    for d0 in out:
+        if d0['fn'] not in FOURIER and d0['j'] % 4 == 0:
+            d1 = dict(d0, kind='dyn', exc_only=True)
+            extra.append(d1)
+    out += extra
+    ncl = 60 if c.tier == 'quick' else 500
     for cls in E.CLASSES:
         for j in range(ncl):
             cplx = int(rng.integers(0, 2))
@@ -291,6 +299,9 @@ def run_case(c, d):
         return
     if scaled['error'] is not None:
         c.exception('scale', scaled['error'], feats)
+        return
+    if d.get('exc_only'):
+        c.ok('scale:accepts-c*x-when-it-accepts-x')
         return
     if not decision_margin_ok(d, x):
         c.discard('decision-margin-within-rounding')
